@@ -70,7 +70,8 @@ PROPS["C18"] = dict(
     level_text="Bounded symbolic checking of the real utils helpers: IsNonFatalConfig is compared with the subset definition evaluated BY LOOKUP in the harness, for symbolic priority "
                "sets in every input order (Fair: exact, Int encoding, q over the whole uint range; Rate: uninterpreted float arithmetic, i.e. for any float values, with an exact-float "
                "refinement on a catalogue whenever a candidate appears); the four PickUp loops are run against an UNINTERPRETED predicate (contract substitution of isNonFatalConfig / "
-               "isSuitableConfig), so least/greatest-q holds for every divider and limit; the arguments handed to the predicate are checked to be all 2^n-1 sorted combinations.",
+               "isSuitableConfig), so least/greatest-q holds for every divider and limit; the arguments handed to the predicate are checked to be all 2^n-1 sorted combinations; "
+               "non-fatal => accepted by the real v2 constructor for symbolic priorities and HandlersQuantity (Fair exact, Rate for any float values); the same obligations on the v1 copies in priority/utils.go.",
     level_note="Bounds: n<=3 (Fair), n<=2 (Rate structure), max<=6 quick / 12 thorough for the PickUp loops. Outside: the numeric value of isDistributionSuitable's percentage test "
                "(only its structure: suitable => non-fatal; monotonicity in the limit is covered for n=1), n>4. v1 utils is a line-for-line copy and is checked by the v1 group.",
     technique="symbolic execution of go/ssa; Int encoding; uninterpreted floats with exact-float refinement (cvc5); contract substitution with an uninterpreted predicate",
@@ -92,6 +93,24 @@ PROPS["C18"] = dict(
              params=dict(quick=dict(n=[2], M=[6]), thorough=dict(n=[3], M=[12]))),
     ],
 )
+
+# v1 priority/utils.go: the same obligations on the v1 copies of the helpers (ported harness)
+def _c18v1():
+    out = []
+    for g in list(PROPS["C18"]["groups"]):
+        h = dict(g, mod="v1", pkg="priority", overlay="harness/v1/priority")
+        if "name" in h:
+            h["name"] = h["name"] + "_v1"
+        if "refined_by" in h:
+            h["refined_by"] = h["refined_by"] + "_v1"
+        out.append(h)
+    return out
+PROPS["C18"]["groups"] += _c18v1()
+
+PROPS["C18"]["groups"] += [
+    dict(mod="v2", pkg="priority", overlay="harness/v2/priority", harness="^VerifC18_nonfatal_accepted_fair$", params=dict(quick=dict(n=[1, 2, 3]), thorough=dict(n=[1, 2, 3]))),
+    dict(mod="v2", pkg="priority", overlay="harness/v2/priority", harness="^VerifC18_nonfatal_accepted_rate$", approx=True, params=dict(quick=dict(n=[1, 2]), thorough=dict(n=[1, 2, 3]))),
+]
 
 # ---- join / unite / limit ---------------------------------------------------------------------------
 
